@@ -108,6 +108,19 @@ def seq_arr(rng, n):
     return "arr", "", ops
 
 
+def seq_wire(rng):
+    """records whose names share suffixes (compression) and end in a dot or not"""
+    lab = lambda: "".join(rng.choice("abcdefghijklmnopqrstuvwxyz") for _ in range(rng.randint(1, 8)))
+    dom = lab() + "." + lab()
+    dot = lambda s: s + "." if rng.random() < 0.5 else s
+    ops = ["q:%s" % dot("host." + dom)]
+    for _ in range(rng.randint(1, 3)):
+        ops.append("an:%s" % dot(rng.choice(["host." + dom, lab() + "." + lab(), "www." + dom])))
+    for _ in range(rng.randint(0, 2)):
+        ops.append("ns:%s:%s" % (dot(dom), dot("ns." + rng.choice([dom, lab() + ".test"]))))
+    return "wire", "", ops
+
+
 def sequences(rng, tier):
     per = 3 if tier == "quick" else 12
     out = []
@@ -119,6 +132,8 @@ def sequences(rng, tier):
         for _ in range(4):
             out.append(seq_buf(rng, rng.choice([12, 20, 40])))
             out.append(seq_arr(rng, rng.choice([12, 20, 40, 80])))
+        for _ in range(3):
+            out.append(seq_wire(rng))
     return out
 
 
